@@ -59,10 +59,17 @@ type c09Call struct {
 	Paradigm string `json:"paradigm"` // invoke|stream|collect|transform  (agents: generate|stream)
 	Chunks   int    `json:"chunks,omitempty"`
 	CB       bool   `json:"cb,omitempty"` // per-call callback handler
+	// optshare: the option groups of this call, in call order
+	Groups []c09OGroup `json:"groups,omitempty"`
+	// toollist: index of the tool list carried in wave w (ListSeq[w % len]; -1 = no option), and the tool calls of the input message
+	ListSeq []int      `json:"listSeq,omitempty"`
+	TCalls  []c09TCall `json:"tcalls,omitempty"`
 }
 
 type c09Case struct {
-	Kind      string     `json:"kind"` // pregel|dag|workflow|chain|nested|checkpoint|react|host|wfstraggler
+	Kind      string     `json:"kind"` // pregel|dag|workflow|chain|nested|checkpoint|react|host|wfstraggler|optshare|toollist
+	Opt       *c09OptShare `json:"opt,omitempty"` // optshare (c09_opts.go)
+	TL        *c09ToolList `json:"tl,omitempty"`  // toollist (c09_opts.go)
 	Layers    []c09Layer `json:"layers,omitempty"`
 	NestFrom  int        `json:"nestFrom,omitempty"` // nested: layers[NestFrom:NestTo] form the inner graph
 	NestTo    int        `json:"nestTo,omitempty"`
@@ -89,6 +96,7 @@ type c09ChildOut struct {
 	BuildErr string     `json:"buildErr,omitempty"`
 	Alone    []c09Obs   `json:"alone"`
 	Conc     [][]c09Obs `json:"conc"` // [call][rep]
+	AloneR   [][]c09Obs `json:"aloneR,omitempty"` // optshare / toollist: the sequential reference of every (call, wave)
 }
 
 // ---- state, options ----
@@ -949,6 +957,18 @@ func c09StragglerRunner(c *c09Case, r compose.Runnable[string, map[string]any]) 
 func c09BuildRunner(c *c09Case) (c09Runner, error) {
 	ctx := context.Background()
 	switch c.Kind {
+	case "optshare":
+		r, err := c09BuildOptShare(c)
+		if err != nil {
+			return nil, err
+		}
+		return c09OptShareRunner(c, r), nil
+	case "toollist":
+		r, err := c09BuildToolList(c)
+		if err != nil {
+			return nil, err
+		}
+		return c09ToolListRunner(c, r), nil
 	case "wfstraggler":
 		r, err := c09BuildStraggler(c)
 		if err != nil {
@@ -1012,15 +1032,24 @@ func c09ChildMain() {
 		emit()
 		return
 	}
-	// phase 1: every call alone, sequentially
-	for i := range c.Calls {
-		out.Alone = append(out.Alone, run(i, 0, "alone"))
-	}
-	// phase 2: all calls at once, released together
 	reps := c.Reps
 	if reps < 1 {
 		reps = 1
 	}
+	// phase 1: every call alone, sequentially
+	for i := range c.Calls {
+		if c09IsOptKind(c.Kind) { // what a call carries may differ from wave to wave: one reference per (call, wave)
+			var rs []c09Obs
+			for r := 0; r < reps; r++ {
+				rs = append(rs, run(i, r, "alone"))
+			}
+			out.AloneR = append(out.AloneR, rs)
+			out.Alone = append(out.Alone, rs[0])
+			continue
+		}
+		out.Alone = append(out.Alone, run(i, 0, "alone"))
+	}
+	// phase 2: all calls at once, released together
 	out.Conc = make([][]c09Obs, len(c.Calls))
 	var ready, done sync.WaitGroup
 	start := make(chan struct{})
